@@ -119,6 +119,9 @@ func (m *Machine) checkLazyGlobalRead(fr *Frame, addr *Value) {
 }
 
 func (m *Machine) checkAccess(fr *Frame, addr *Value, write bool) {
+	if m.race.on && len(m.gs) > 1 {
+		m.raceAccess(fr, addr, write)
+	}
 	if len(m.lazyAddr) == 0 {
 		return
 	}
